@@ -241,3 +241,62 @@ pub fn concat_twin_trees() -> Vec<E> {
     }
     out
 }
+
+/// Chains of `n` operands nested to the left (the shape the parser builds) or to the right (groups,
+/// or a hand-built fold), under one operator or a mix, with the only action at a chosen operand
+/// position: a walker that gives up, or forgets pending operands, beyond some depth or count
+/// answers wrongly for particular (direction, length, position) combinations only.
+pub fn spine(n: usize, right: bool, op: u8, pos: usize, special: &E) -> E {
+    let leaf = |i: usize| if i == pos { special.clone() } else if i % 7 == 3 { E::T(Tst::Name(s("a"))) } else { E::T(Tst::True) };
+    let join = |i: usize, a: E, b: E| match if op == 3 { (i % 3) as u8 } else { op } {
+        0 => E::and(a, b),
+        1 => E::or(a, b),
+        _ => E::list(a, b),
+    };
+    if right {
+        let mut acc = leaf(n - 1);
+        for i in (0..n - 1).rev() {
+            acc = join(i, leaf(i), acc);
+        }
+        acc
+    } else {
+        let mut acc = leaf(0);
+        for i in 1..n {
+            acc = join(i, acc, leaf(i));
+        }
+        acc
+    }
+}
+
+/// (tree, description) for a grid of lengths, directions, operators, positions and actions
+pub fn spine_trees(max_len: usize) -> Vec<(E, String)> {
+    let mut out = vec![];
+    let specials = [
+        E::A(Act::Print),
+        E::A(Act::Print0),
+        E::A(Act::Quit),
+        E::A(Act::FPrint(s("f"))),
+        E::A(Act::Printf(vec![FEl::F(Fld::NameNoStart)])),
+        E::A(Act::Printf(vec![FEl::F(Fld::NameNoStart), FEl::E(Esc::Newline)])),
+    ];
+    let mut lens: Vec<usize> = (2..=20).collect();
+    lens.extend([31, 32, 33, 63, 64, 65, 100, 126, 127, 128, 129, 130, 200, 255, 256, 257, 300, 1000, 2000]);
+    for n in lens {
+        if n > max_len {
+            continue;
+        }
+        let mut ps = vec![0usize, 1, 2, 5, 9, 10, 11, 12, n / 2, n.saturating_sub(12), n.saturating_sub(11), n.saturating_sub(10), n.saturating_sub(2), n - 1];
+        ps.retain(|p| *p < n);
+        ps.sort();
+        ps.dedup();
+        for right in [false, true] {
+            for op in 0..4u8 {
+                for (k, p) in ps.iter().enumerate() {
+                    let sp = &specials[(k + n + op as usize) % specials.len()];
+                    out.push((spine(n, right, op, *p, sp), format!("{} operands nested to the {}, operator {}, the only action ({:?}) at operand {}", n, if right { "right" } else { "left" }, ["and", "or", "','", "mixed"][op as usize], sp, p)));
+                }
+            }
+        }
+    }
+    out
+}
